@@ -460,9 +460,9 @@ var EngineC06 = &core.Engine{
 	},
 	Cases: func(tier string) int {
 		if tier == "thorough" {
-			return 60000
+			return 120000
 		}
-		return 2500
+		return 8000
 	},
 	Batch:         func(string) int { return 128 },
 	Run:           run06,
